@@ -87,6 +87,45 @@ Proof.
     unfold step at 1. cbn [pc loaded]. rewrite !upd_same. cbn [loaded]. try rewrite Ef. try apply upd_same.
 Qed.
 
+(* ---- failing builds (exception unwinding through the finally clause) ---- *)
+Lemma inv_abort s p : Inv s -> Inv (abort false s p).
+Proof.
+  intros [Hf [Hp [Hl Hld]]]. unfold abort.
+  destruct (pc s p) eqn:Epc; try (unfold Inv; auto; fail); unfold Inv; simpl; repeat split; solve_q.
+Qed.
+
+Theorem unwind_safe evs : Inv (erun false evs init).
+Proof.
+  unfold erun. assert (H : forall s, Inv s -> Inv (fold_left (estep false) evs s)).
+  { induction evs as [|e r IH]; simpl; intros s Hs; auto. apply IH. destruct e; simpl; [apply inv_step|apply inv_abort]; auto. }
+  apply H. apply inv_init.
+Qed.
+
+(* recovery from ANY state satisfying the invariant *)
+Theorem recovers_from s p : Inv s -> pc s p = Start ->
+  loaded (run Rename [p; p; p; p; p] s) p = Some Complete.
+Proof.
+  intros [Hf _] Hpc.
+  unfold run. cbn [fold_left].
+  unfold step at 5. rewrite Hpc.
+  destruct (final s) eqn:Ef; [| congruence |].
+  - unfold step at 4. cbn [pc]. rewrite upd_same.
+    unfold step at 3. cbn [pc]. rewrite upd_same.
+    unfold step at 2. cbn [pc tmp]. rewrite upd_same.
+    unfold step at 1. cbn [pc final tmp loaded]. rewrite !upd_same. cbn [loaded]. apply upd_same.
+  - unfold step at 4. cbn [pc]. rewrite upd_same. cbn [final].
+    unfold step at 3. cbn [pc]. rewrite upd_same.
+    unfold step at 2. cbn [pc]. rewrite upd_same.
+    unfold step at 1. cbn [pc loaded]. rewrite !upd_same. cbn [loaded]. try rewrite Ef. try apply upd_same.
+Qed.
+Theorem unwind_recovers evs p :
+  let s := erun false evs init in pc s p = Start -> loaded (run Rename [p; p; p; p; p] s) p = Some Complete.
+Proof. intros s H. apply recovers_from; auto. apply unwind_safe. Qed.
+
+(* renaming the temporary onto the final name while unwinding is refuted: lookup, first half, failure *)
+Theorem unwind_publish_refuted : exists evs, final (erun true evs init) = Partial.
+Proof. exists [Step 1; Step 1; Abort 1]. vm_compute. reflexivity. Qed.
+
 (* compiling in place violates it: P1 lookup, P1 writes half, P2 lookup finds
    the file, P2 loads a partial library *)
 Theorem inplace_refuted :
